@@ -1466,6 +1466,20 @@ func argFacts(st AtomSet, call ssa.CallInstruction, callee *ssa.Function) map[At
 			}
 		}
 		if from == "" {
+			// an integer argument: bounds established on it hold for the parameter
+			if b, isBasic := types.Unalias(prm.Type()).Underlying().(*types.Basic); isBasic && b.Info()&types.IsInteger != 0 {
+				src, dst := canon(a), canon(prm)
+				for f := range st.m {
+					for _, pre := range []string{"v:ub:", "v:lb0:"} {
+						if f == Atom(pre+src) {
+							out[Atom(pre+dst)] = true
+						}
+					}
+					if strings.HasPrefix(f, "v:lbc:"+src+":") {
+						out[Atom("v:lbc:"+dst+f[len("v:lbc:"+src):])] = true
+					}
+				}
+			}
 			continue
 		}
 		for f := range st.m {
